@@ -282,6 +282,28 @@ func (w *c13World) observe(result string) string {
 	}
 	sort.Strings(labels)
 	res := didsubject.Resolver{DB: w.db}
+	// List and Exists must agree with ListDIDs (implementation-side consistency; the model prints the constant)
+	listOK := "ok"
+	all, err := w.mgr.List(w.ctx)
+	if err != nil {
+		listOK = "bad:" + c13ErrClass(err)
+	}
+	for _, s := range subjects {
+		dids, err := w.mgr.ListDIDs(w.ctx, s)
+		exists, err2 := w.mgr.Exists(w.ctx, s)
+		if err2 != nil || exists != (err == nil && len(dids) > 0) {
+			listOK = "bad:exists(" + s + ")"
+		}
+		if fmt.Sprint(all[s]) != fmt.Sprint(dids) && !(len(all[s]) == 0 && len(dids) == 0) {
+			listOK = "bad:list(" + s + ")"
+		}
+	}
+	for s := range all {
+		if !w.subjects[s] {
+			listOK = "bad:unknown-subject(" + s + ")"
+		}
+	}
+	fmt.Fprintf(&sb, " list=%s", listOK)
 	for _, s := range subjects {
 		fmt.Fprintf(&sb, " || %s", s)
 		dids, err := w.mgr.ListDIDs(w.ctx, s)
@@ -457,6 +479,29 @@ func (w *c13World) run(ev c13Ev) (c13Ev, string) {
 	return ev, ""
 }
 
+// runSafe: a panic of the code under test (other than the injected stop) is an outcome of that event, not of the harness
+func (w *c13World) runSafe(ev c13Ev) (done c13Ev, line string) {
+	defer func() {
+		if r := recover(); r != nil {
+			msg := strings.ReplaceAll(fmt.Sprint(r), " ", "_")
+			if len(msg) > 80 {
+				msg = msg[:80]
+			}
+			w.freshManagers()
+			done = ev
+			func() {
+				defer func() {
+					if r2 := recover(); r2 != nil {
+						line = "panic:" + msg + " log=0 keys=0"
+					}
+				}()
+				line = w.observe("panic:" + msg)
+			}()
+		}
+	}()
+	return w.run(ev)
+}
+
 // ---- generator -----------------------------------------------------------------------------------
 
 type c13Gen struct {
@@ -612,7 +657,7 @@ func TestVerifC13(t *testing.T) {
 	defer impl.Flush()
 	exec := func(evs []c13Ev) {
 		for _, ev := range evs {
-			done, line := w.run(ev)
+			done, line := w.runSafe(ev)
 			b, _ := json.Marshal(done)
 			ops.Write(b)
 			ops.WriteString("\n")
